@@ -1,0 +1,13 @@
+// +build verif
+
+package consensus
+
+import "github.com/LemoFoundationLtd/lemochain-core/common"
+
+// VerifConfirmer exposes the confirmer, so that the verification harness can run the
+// background confirm of one stable height (Confirmer.BatchConfirmStable) synchronously
+// when it replays a recorded request history in a chosen sequential order.
+func (dp *DPoVP) VerifConfirmer() *Confirmer { return dp.confirmer }
+
+// VerifLastSig returns the height and hash of the last block this node signed.
+func (c *Confirmer) VerifLastSig() (uint32, common.Hash) { return c.lastSig.Height, c.lastSig.Hash }
